@@ -54,6 +54,7 @@ type Contract struct {
 	HdrName  string
 	Auto     bool
 	Callbacks map[string]*Callback
+	CallSites map[string][]*Clause // obligations at calls of the named callee inside this function
 	AllocBound []*Clause // `allocbound e`: every make() of the function allocates at most e bytes
 	Iface    bool // interface-method contract, fanned out to implementers
 	Derived  string // key of the interface contract this one was copied from
@@ -119,7 +120,7 @@ type ContractSet struct {
 	Files  []string
 }
 
-var clauseKw = map[string]bool{"forbid": true, "allocbound": true, "callback": true, "auto": true, "interface": true, "func": true, "pure": true, "opaque": true, "ghost": true, "call": true, "assume": true, "lemma": true, "arith": true, "requires": true,
+var clauseKw = map[string]bool{"callsite": true, "forbid": true, "allocbound": true, "callback": true, "auto": true, "interface": true, "func": true, "pure": true, "opaque": true, "ghost": true, "call": true, "assume": true, "lemma": true, "arith": true, "requires": true,
 	"ensures": true, "loop": true, "closure": true, "modifies": true, "claims": true, "cover": true, "inline": true,
 	"replay": true, "props": true, "split": true, "hint": true, "end": true}
 
@@ -522,6 +523,26 @@ func addClause(c *Contract, text string, line int) error {
 		}
 		c.AllocBound = append(c.AllocBound, cl)
 		c.Claims["alloc"] = true
+	case "callsite":
+		// `callsite callee: requires P` — obligation at every call of `callee` inside this function,
+		// evaluated over the caller's locals (typestate: "the sink is reached only after the check")
+		i := strings.Index(rest, ":")
+		if i < 0 {
+			return fmt.Errorf("callsite callee: requires P")
+		}
+		name := strings.TrimSpace(rest[:i])
+		tail := strings.TrimSpace(rest[i+1:])
+		if !strings.HasPrefix(tail, "requires") {
+			return fmt.Errorf("callsite %s: expected `requires`", name)
+		}
+		cl, err := mk(strings.TrimSpace(tail[len("requires"):]))
+		if err != nil {
+			return err
+		}
+		if c.CallSites == nil {
+			c.CallSites = map[string][]*Clause{}
+		}
+		c.CallSites[name] = append(c.CallSites[name], cl)
 	case "callback":
 		// `callback f(a, b): requires P` — obligation at every call of the function-typed parameter f
 		i := strings.Index(rest, "(")
